@@ -248,6 +248,14 @@ def coded_pool(ctx, e):
             if k == 'tup': return [cover(x, t) for x, t in zip(v, sh[1])]
             return v
         pool = [cover(vg.gen(sh), sh) for _ in range(8)]
+        # every symbol (i.e. every code length, 1..13 bits, the 8-bit one included) as the LAST symbol of an item
+        def ending(s_, sh):
+            k = sh[0]
+            if k == 'list' and sh[1][0] == 'n' and sh[1][1] in ('u8', 'u16'): return [ctx.rng.choice(syms) for _ in range(ctx.rng.randrange(3))] + [s_]
+            if k == 'list': return [ending(s_, sh[1])]
+            if k == 'tup': return [ending(s_, sh[1][0])] + [cover(vg.gen(t), t) for t in sh[1][1:]]
+            return s_
+        pool += [ending(s_, sh) for s_ in syms]
         # training values: one value per symbol run, shaped like the entry
         def shaped(run, sh):
             k = sh[0]
@@ -1071,6 +1079,25 @@ def c03(ctx):
                 'for every i < len, get(len), get(len+1) (must panic), iteration, a cloned iterator after one step, '
                 'size_hint bounds; compared with a Python list of the copied values and with the Coq FlatStack model')
     cases = gen_fs_cases(ctx, list(FS_EXPR), 25 if not ctx.thorough else 300, 14)
+    # bounded-exhaustive part: over a region whose indices are caller-controlled (MirrorRegion<usize>) the index
+    # container sees arbitrary usize sequences; all sequences of length <= L over the transition-covering
+    # alphabet of C05 (0, s, 2s, 3s, 7, 2^32-1, 2^32, 2^63, 2^64-1), copied one by one and via extend
+    import itertools
+    L = 3 if not ctx.thorough else 4
+    mir = [n for n in FS_EXPR if n.startswith('fs_mir_usize')]
+    nex = 0
+    for s_ in (3, 2 ** 63):
+        alpha = list(dict.fromkeys(ic_alphabet(s_)))
+        for seq in itertools.product(alpha, repeat=L):
+            for n in mir:
+                ops = [('copy', v) for v in seq] + [('observe',)]
+                cases.append((n, ops)); nex += 1
+            if seq[0] == 0:
+                for n in mir:
+                    cases.append((n, [('extend', list(seq)), ('observe',), ('clear',), ('fromiter', list(seq[1:])), ('observe',)])); nex += 1
+    res.exhaustive = True
+    res.extra['exhaustive_part'] = (f'all usize sequences of length {L} over the 9-letter alphabet of C05 for two strides, copied into '
+                                    f'FlatStack<MirrorRegion<usize>, S> for S in Vec / IndexOptimized / IndexList ({nex} histories)')
     note_fs(res, cases)
     run_fs_cases(ctx, res, cases)
     return res
@@ -1612,7 +1639,7 @@ def c06(ctx):
             a4 = sorted(c4)
             ops4 = train_ops(0, counts) + [('merge', 2, [0])] + [('push', 2, 0, [alphabet[-1]] * 3), ('clear', 2)] + train_ops(2, c4) + [('merge', 3, [2])] + use_ops(3, a4, None)
             cases.append((name, ops4)); note_case(res, name, ops4)
-    if ctx.thorough:
+    if True:
         # 27-bit codes (Fibonacci counts over 28 symbols, 832 039 training symbols): 7 carried bits + code > 32
         counts = {i: c for i, c in enumerate(fib(28))}
         alphabet = sorted(counts)
